@@ -220,7 +220,12 @@ pub fn probes(st: &State) -> Vec<Probe> {
         .collect();
     let bound = |p: &Vec<String>, name: &str| -> bool {
         let sc = &st.scopes[&ScopeKey::Mod(p.clone())];
-        sc.decls.contains_key(name) || (p.is_empty() && sc.imports.contains_key(name))
+        // a root import whose target did not exist when it was declared may
+        // have come alive through a later add: nothing is expected of that name
+        sc.decls.contains_key(name)
+            || (p.is_empty()
+                && (sc.imports.contains_key(name)
+                    || st.dangling.iter().any(|(loc, n, _)| loc.is_empty() && n == name)))
     };
     for (id, info) in &st.items {
         if !matches!(info.k, K::Fn(_) | K::Const(_) | K::Ty(_)) {
@@ -254,7 +259,8 @@ pub fn probes(st: &State) -> Vec<Probe> {
     // a dangling import: naming it must not panic the compiler
     for (loc, name, use_id) in &st.dangling {
         let _ = loc;
-        if bound(&vec![], name) {
+        let root = &st.scopes[&ScopeKey::Mod(vec![])];
+        if root.decls.contains_key(name) || root.imports.contains_key(name) {
             continue;
         }
         n += 1;
